@@ -1,0 +1,42 @@
+//go:build verif
+
+package swap
+
+import "sort"
+
+// Verification hooks for C14 (build tag verif, add-only): read-only access to
+// the swap bucket name and to the state names of the four state tables, so
+// that the harness can read the raw persisted bytes of the real bboltStore and
+// generate records in every role and state.
+
+// VerifSwapBucketName returns the name of the bbolt bucket the swap store uses.
+func VerifSwapBucketName() []byte { return append([]byte{}, swapBuckets...) }
+
+// VerifStateTable names one (type, role) state table.
+type VerifStateTable struct {
+	Type   SwapType
+	Role   SwapRole
+	States []string
+}
+
+func verifStateNames(s States) []string {
+	out := []string{}
+	for k := range s {
+		out = append(out, string(k))
+	}
+	sort.Strings(out)
+	return out
+}
+
+// VerifStateTables returns the state names of every role's state table.
+func VerifStateTables() []VerifStateTable {
+	return []VerifStateTable{
+		{SWAPTYPE_OUT, SWAPROLE_SENDER, verifStateNames(getSwapOutSenderStates())},
+		{SWAPTYPE_OUT, SWAPROLE_RECEIVER, verifStateNames(getSwapOutReceiverStates())},
+		{SWAPTYPE_IN, SWAPROLE_SENDER, verifStateNames(getSwapInSenderStates())},
+		{SWAPTYPE_IN, SWAPROLE_RECEIVER, verifStateNames(getSwapInReceiverStates())},
+	}
+}
+
+// VerifH2b is the store's id-string to key conversion.
+func VerifH2b(s string) []byte { return h2b(s) }
